@@ -182,6 +182,8 @@ pub struct ReadOutcome {
     pub zero_ok: bool,
     pub calls: usize,
     pub after_eof_ok: bool,
+    /// MT readers: number of work units / members the reader handed out (vacuity guard of C07)
+    pub units: Option<u64>,
 }
 
 pub fn read_pattern<R: Read>(r: &mut R, sizes: &[usize], log: Option<&Log>, max_calls: usize) -> ReadOutcome {
@@ -245,7 +247,7 @@ pub fn read_pattern<R: Read>(r: &mut R, sizes: &[usize], log: Option<&Log>, max_
             }
         }
     }
-    ReadOutcome { bytes: out, err, zero_ok, calls, after_eof_ok }
+    ReadOutcome { bytes: out, err, zero_ok, calls, after_eof_ok, units: None }
 }
 
 /// Line server used by the group D binaries: one JSON request per stdin line, one JSON result per stdout line.
